@@ -1,0 +1,22 @@
+// Copyright (c) Tailscale Inc & AUTHORS
+// SPDX-License-Identifier: BSD-3-Clause
+
+//go:build verif
+
+package server
+
+import (
+	"context"
+
+	"github.com/aws/aws-sdk-go-v2/service/s3"
+	"github.com/tailscale/setec/db"
+)
+
+// VerifRunPeriodicBackup runs the server's periodic backup task for kdb with
+// the given S3 client and bucket until ctx ends. It exists only in builds with
+// the "verif" tag (verification instrumentation), so that the task can be
+// driven without network access.
+func VerifRunPeriodicBackup(ctx context.Context, kdb *db.DB, client *s3.Client, bucket string) {
+	s := &Server{db: kdb, backupClient: client, backupBucket: bucket}
+	s.periodicBackup(ctx)
+}
